@@ -167,6 +167,49 @@ def run(ctx):
         ctx.cov["open_questions"] = {"runs": qstats["runs"], "agree": qstats["agree"],
                                      "disagree": sorted({(x["program"], x["detail"][:100]) for x in qrecs
                                                          if x["verdict"] in ("mismatch", "hlsl_ub")})[:6]}
+        # generated programs (lib/wgslgen.py): shapes nobody wrote by hand - helpers called only from continuing
+        # blocks, run-time indices into vectors / matrix columns / module constants, pointer lets, nested control flow.
+        # The constructs with a recorded HLSL finding (clz/ctz/sign, covered by P.KNOWN) are kept out of them.
+        import wgslgen
+        import shrink as shrinker
+        ng = ctx.scale(60, 1200)
+        gasts, gprogs = {}, []
+        for i in range(ng):
+            ast, src = wgslgen.generate(rng.fork("gen%d" % i), GEN_OPTS)
+            gasts["gen:%d" % i] = ast
+            gprogs.append(("gen:%d" % i, src))
+        gsets = ["default51"] if not ctx.thorough else ["default51", "bare", "sm60"]
+        gstats, grecs = D.validate(tools, irrun, hlslrun, gprogs, gsets, ctx.scale(2, 4), rng.fork("gen-inputs"))
+        totals["generated"] = gstats
+        bad = [r for r in grecs if r["verdict"] in ("mismatch", "hlsl_ub", "reader_crash")]
+        done = set()
+        for r in bad[:40]:
+            if r["program"] in done:
+                continue
+            done.add(r["program"])
+
+            def still(p2, _opt=r["opt"], _v=r["verdict"]):
+                try:
+                    _s, rr = D.validate(tools, irrun, hlslrun, [("x", wgslgen.render(p2))], [_opt], 3, vcheck.Rng(11).fork("shrink"))
+                except Exception:
+                    return False
+                return any(x["verdict"] == _v for x in rr)
+            small = gasts[r["program"]]
+            try:
+                if still(small):
+                    small = shrinker.shrink(small, still, max_rounds=3)
+            except Exception:
+                pass
+            ssrc = wgslgen.render(small)
+            key = "gen:%s:%s" % (r["verdict"], feature_key(small))
+            what = {"mismatch": "HLSL output of a generated program (options %s) computes different buffer contents than the WGSL program: %s",
+                    "hlsl_ub": "HLSL output of a generated program (options %s) has undefined behaviour where WGSL defines the result: %s",
+                    "reader_crash": "the HLSL reader crashed on the output of a generated program (options %s): %s"}[r["verdict"]] % (r["opt"], r["detail"])
+            ctx.violation(what, files={"input.wgsl": r.get("src", ""), "shrunk.wgsl": ssrc, "emitted.hlsl": r.get("hlsl") or "",
+                                       "inputs.json": json.dumps(r.get("inputs")), "detail.json": json.dumps(
+                                           {k: r.get(k) for k in ("opt", "ep", "input", "detail", "ir_result", "hlsl_result")})},
+                          key=key)
+        mark("validate_generated")
         corpus = nagarun.corpus()
         if not ctx.thorough:
             corpus = rng.fork("corpus").shuffle(corpus)[:36]
@@ -194,11 +237,39 @@ def run(ctx):
                            "pool; non-trivial = both interpreters completed, every storage buffer agrees byte for byte and the run changed at "
                            "least one buffer (distinct (program, options, input) triples, counted)")
         ctx.sample({"probe_row": {k2: rows[0][k2] for k2 in ("op", "ty", "shape", "template")}} if rows else {})
-        ctx.cov["programs"] = len(P.PROGRAMS) + len(P.KNOWN) + len(corpus)
+        ctx.cov["programs"] = len(P.PROGRAMS) + len(P.KNOWN) + len(corpus) + len(gprogs)
     if broken and not ctx.violations:
         ctx.violation(broken, found_input=False, broken=broken, key="c03-broken-tie")
     elif broken:
         ctx.cov["broken_tie"] = broken
+
+
+GEN_OPTS = {"avoid": ("countLeadingZeros", "countTrailingZeros", "sign:f32")}
+
+
+def feature_key(prog):
+    """what is left in a shrunk wgslgen program, as a stable signature: builtins, operators and statement kinds of the
+    entry point and helper bodies (sorted, truncated)"""
+    feats = set()
+
+    def walk(x):
+        if isinstance(x, list):
+            for y in x:
+                walk(y)
+        elif isinstance(x, dict):
+            if x.get("e") == "builtin":
+                feats.add(x["f"])
+            elif x.get("e") in ("bin", "un"):
+                feats.add(x["e"] + x["op"])
+            elif x.get("e") in ("idx", "swz", "deref", "addr", "conv", "bitcast", "call", "select", "cons"):
+                feats.add(x["e"])
+            if x.get("s") in ("switch", "loop", "for", "while", "compound", "incr", "decr", "callstmt"):
+                feats.add("s:" + x["s"])
+            for v in x.values():
+                walk(v)
+    walk(prog["entry"]["body"])
+    walk([f["body"] for f in prog["funcs"]])
+    return ",".join(sorted(feats))[:100]
 
 
 def report(ctx, recs, strict):
